@@ -361,6 +361,16 @@ class Model:
         ops = []
         if r.random() < 0.3:
             return self.gen_toggle()
+        if r.random() < 0.1 and self.secs:
+            # a section goes dark: every interval of it loses its address
+            # (its index is then built but empty at the next lookup)
+            cands = [s for s in self.secs
+                     if 1 <= len(self.ivs_of_sec(s)) <= 8]
+            if cands:
+                s = r.choice(cands)
+                return [{"op": "iv_addr", "id": i, "addr": None}
+                        for i in self.ivs_of_sec(s)
+                        if self.ivs[i]["addr"] is not None]
         if r.random() < 0.5 and self.secs:
             s = r.choice(list(self.secs))
             ivs = self.ivs_of_sec(s)
@@ -442,6 +452,11 @@ class Model:
                 ops.append({"op": "blk_" + f, "id": b, f: vals[(j + 1) % 2]})
         elif k == 1 and placed:
             i = r.choice(placed)
+            dark = [x for x in placed if all(
+                self.ivs[y]["addr"] is None
+                for y in self.ivs_of_sec(self.ivs[x]["sec"]))]
+            if dark and r.random() < 0.5:
+                i = r.choice(dark)  # an interval of a section gone dark
             f = r.choice(["addr", "addr", "size"])
             cur = self.ivs[i][f]
             other = self.addr() if f == "addr" else self.isize()
@@ -696,7 +711,23 @@ class Model:
             else:
                 a = rnd.choice(crit)
                 qs.append(range(a, a + rnd.randint(1, 3)))
-        return qs
+        # a range is followed, now and then, by another one with the same
+        # members and another stop (equal as ranges go, yet 'on' spans a
+        # different stretch)
+        out = []
+        for q in qs:
+            out.append(q)
+            if isinstance(q, range) and q and rnd.random() < 0.4:
+                last = q[-1]
+                stops = {last + 1, last + q.step} - {q.stop}
+                if q.step == 1:
+                    stops = set()
+                    if q.start + 1 >= q.stop:  # range(a, a+1) == range(a, b, big)
+                        out.append(range(q.start, q.start + rnd.choice(
+                            [7, 40]), 50))
+                for st in sorted(stops)[:1]:
+                    out.append(range(q.start, st, q.step))
+        return out
 
 
 # ---------------------------------------------------------------------------
